@@ -1,4 +1,5 @@
 import Glas.Lemmas.Text
+import Glas.Lemmas.TextSem
 import Glas.Model.TextSpec
 /-!
 # C19 — the semantic-token stream decodes to exactly the highlighted identifiers (encoder half)
@@ -6,12 +7,31 @@ import Glas.Model.TextSpec
 namespace Glas.Props.C19
 open Glas.Text
 
-/-- column conversion inside one line: the UTF-16 column of a character boundary is mapped to its
-byte offset (the loop of `pos_for_line_col`) -/
-theorem col_to_byte (cs : List Char) (k : Nat) (hk : k ≤ cs.length) :
-    posForCol (diffsOf cs 0) (u16sum (cs.take k)) = u8sum (cs.take k) := by
-  have := posForCol_correct cs 0 k hk
+/-- encoding never fails and decodes, by the LSP rules, to exactly the highlighted
+`(line, UTF-16 start, UTF-16 length, type)` — whatever characters precede a token on its line -/
+theorem decode_encode (t : List Char) (hls : List Hl) (hok : ∀ h ∈ hls, hlOk t h)
+    (hs : hlSorted hls) (hlen : u8sum t < U32) :
+    ∃ ts, toSemanticTokens (lineMap t) (hls.map (hlBytes t)) (0, 0) [] = some ts ∧
+      decode ts = hls.map (hlExpected t) := by
+  have _ := hlen
+  have := encode_gen t hls (0, 0) [] [] hok hs
+    (by intro h hls' _; unfold posLe; simp only; omega)
+    (by intro more; simp [decode])
   simpa using this
+
+/-- the decoded tokens are strictly increasing in `(line, start)` and do not overlap -/
+theorem strictly_increasing (t : List Char) (hls : List Hl) (hok : ∀ h ∈ hls, hlOk t h)
+    (hs : hlSorted hls) :
+    List.Pairwise (fun a b => posLt (a.1, a.2.1 + a.2.2.1 - 1) (b.1, b.2.1)) (hls.map (hlExpected t)) := by
+  rw [List.pairwise_map]
+  have hp := hlSorted_pairwise hls (fun h hh => (hok h hh).1) hs
+  exact hp.imp_of_mem (fun {a b} ha hb hab => hl_pair_lt t a b (hok a ha) (hok b hb) hab)
+
+/-- every decoded token lies inside its line -/
+theorem inside_line (t : List Char) (h : Hl) (hok : hlOk t h) :
+    (hlExpected t h).2.1 + (hlExpected t h).2.2.1 ≤ lineLen16 t (hlExpected t h).1 ∧
+    0 < (hlExpected t h).2.2.1 := by
+  exact hl_inside t h hok
 
 example : toSemanticTokens (lineMap "ß💣f\ng".toList)
     ([(2, 3, 1), (4, 5, 2)].map (hlBytes "ß💣f\ng".toList)) (0, 0) [] =
